@@ -7,6 +7,8 @@
 import IpfixModel.Lemmas.E2E
 import IpfixModel.Lemmas.Unknown
 import IpfixModel.Props.C03
+import IpfixModel.Props.C08
+import IpfixModel.Props.C16
 namespace Ipfix.C01
 open Outcome
 
@@ -142,6 +144,85 @@ theorem exporter_emits_wire (s : SetB) (hi : C16.Inv s) (sid dom seq time : Nat)
       rw [hi.1]; simp [List.length_flatten, List.map_map, Function.comp_def]; rfl
     simp only [dataWire, SetB.serialize, SetB.updateLen, hsid, h16, hlen, List.append_assoc]
 
+/-! ## The whole chain in one statement -/
+
+/-- what `SetDesc.build` (PrepareSet(Data, setId) then AddRecordV2 per record) produces -/
+theorem build_data_facts (recs : List (Nat × List Elem)) (s0 s : SetB) (hty : s0.ty = .data) (hi : C16.Inv s0)
+    (h : recs.foldl (fun acc r => acc.bind fun s => s.addRecordV2 r.2 r.1) (some s0) = some s) :
+    s.ty = .data ∧ C16.Inv s ∧ s.header = s0.header ∧
+    (s.recs.map (·.bytes)).map some = (s0.recs.map (·.bytes)).map some ++ recs.map (fun r => encodeRecord r.2) := by
+  induction recs generalizing s0 with
+  | nil => simp at h; subst h; exact ⟨hty, hi, rfl, by simp⟩
+  | cons r t ih =>
+    simp only [List.foldl_cons, Option.bind_some] at h
+    cases ha : s0.addRecordV2 r.2 r.1 with
+    | none =>
+      rw [ha] at h
+      have : ∀ l : List (Nat × List Elem), l.foldl (fun (acc : Option SetB) r => acc.bind fun s => s.addRecordV2 r.2 r.1) none = none := by
+        intro l; induction l with
+        | nil => rfl
+        | cons _ _ ihl => simpa using ihl
+      rw [this] at h; cases h
+    | some s1 =>
+      rw [ha] at h
+      have h1 : s1.ty = .data ∧ C16.Inv s1 ∧ s1.header = s0.header ∧
+          (s1.recs.map (·.bytes)).map some = (s0.recs.map (·.bytes)).map some ++ [encodeRecord r.2] := by
+        have hstep := C16.inv_step s0 (.addV2 r.2 r.1) hi
+        simp only [C16.step, ha, Option.getD_some] at hstep
+        simp only [SetB.addRecordV2, hty] at ha
+        cases he : encodeRecord r.2 with
+        | none => simp [he] at ha
+        | some bs =>
+          simp [he] at ha
+          subst ha
+          exact ⟨rfl, hstep, rfl, by simp⟩
+      obtain ⟨a1, a2, a3, a4⟩ := h1
+      obtain ⟨b1, b2, b3, b4⟩ := ih s1 a1 a2 h
+      exact ⟨b1, b2, b3.trans a3, by rw [b4, a4]; simp⟩
+
+/-- C01 in one statement, for the models: a data set described by `d` (set id = template id, every
+    record of the template's shape with well-typed values), built and handed to the exporter model,
+    whose SendSet succeeds with wire bytes `w`; the collector model, holding the template for the
+    exporter's observation domain, decodes `w` to a message with that domain, the exporter's new
+    sequence number, the same number of records and every value identical (addresses canonical). -/
+theorem e2e_send_data (lookup : Nat → Nat → Option IE) (mode : Mode) (st st' : ExpState) (c : CState)
+    (d : SetDesc) (s : SetB) (time n : Nat) (w : Bytes) (ies : List IE)
+    (hty : d.ty = .data) (hb : d.build true = some s) (hsend : st.sendBuilt time s = (st', .ok n w))
+    (hc : c.lookup (st.dom, d.setId) = some ies) (hmin : 0 < minRecordLen ies) (hwf : ∀ ie ∈ ies, ie.WF)
+    (hnamed : ∀ ie ∈ ies, ie.name ≠ "") (hshape : ∀ r ∈ d.recs, r.2.map (·.1) = ies)
+    (hd : st.dom < 4294967296) (ht : time < 4294967296) (hsid : d.setId < 65536) (hdata : d.setId ≠ 2) :
+    ∃ hdr, decodePacket lookup mode c w =
+      (c, .ok { hdr := hdr, body := .data d.setId (d.recs.map fun r => r.2.map fun e => C15.canon e.1 e.2) }) ∧
+      hdr.dom = st.dom ∧ hdr.seq = st'.seq ∧ hdr.length = w.length ∧ hdr.exportTime = time := by
+  -- the built set
+  unfold SetDesc.build at hb
+  rw [hty] at hb
+  simp only [SetB.prepare] at hb
+  have hi0 : C16.Inv { SetB.new with ty := SetType.data, header := be 2 d.setId ++ SetB.new.header.drop 2 } := by
+    simp [C16.Inv, SetB.new]
+  obtain ⟨sty, sinv, shdr, sbytes⟩ := build_data_facts d.recs _ s rfl hi0 (by simpa using hb)
+  simp only [SetB.new, List.map_nil, List.nil_append] at sbytes shdr
+  -- what the exporter wrote
+  obtain ⟨hn, hdom, hseq, hmsg⟩ := C08.send_ok st st' time s n w hsend
+  have htake : s.header.take 2 = be 2 d.setId := by rw [shdr]; exact List.take_left' (by simp)
+  have hw := exporter_emits_wire s sinv d.setId st.dom st'.seq time w htake hmsg
+  have hseqlt : st'.seq < 4294967296 ∨ True := Or.inr trivial
+  -- size bound
+  have hsz := C16.createMsg_length s.updateLen (C16.inv_step s .updateLen sinv) _ _ _ w hmsg
+  have hlen : w.length = 16 + (4 + ((s.recs.map (·.bytes)).flatten).length) := by
+    rw [hw]; simp [dataWire, msgHeader]; omega
+  have hs' : st'.seq < 4294967296 := by
+    rw [hseq, sty]; simp; exact Nat.mod_lt _ (by decide)
+  have henc : (d.recs.map (·.2)).map encodeRecord = (s.recs.map (·.bytes)).map some := by
+    rw [sbytes]; simp [List.map_map, Function.comp_def]
+  have hshape' : ∀ r ∈ d.recs.map (·.2), r.map (·.1) = ies := by
+    intro r hr; simp at hr; obtain ⟨a, ha⟩ := hr; exact hshape (a, r) ha
+  have := e2e_data lookup mode c st.dom st'.seq time d.setId ies (d.recs.map (·.2)) (s.recs.map (·.bytes))
+    hc hmin hwf hnamed hshape' henc hd hs' ht hsid hdata (by omega)
+  rw [← hw] at this
+  refine ⟨_, by simpa [List.map_map, Function.comp_def] using this, rfl, rfl, ?_, rfl⟩
+  rw [hlen]; simp [List.length_flatten, List.map_map, Function.comp_def]
+
 /-! ## Non-vacuity: a concrete template and record, end to end through the two theorems' hypotheses -/
 def ies0 : List IE := [⟨"protocolIdentifier", 4, .unsigned8, 0, 1⟩, ⟨"sourcePodName", 101, .string, 56506, 65535⟩]
 example : (∀ ie ∈ ies0, Registered lookupIE ie) := by
@@ -152,5 +233,15 @@ example : (decodePacket lookupIE .strict (decodePacket lookupIE .strict {} (temp
     (dataWire 7 1 0 256 [[6, 2, 104, 105]])).2 =
     .ok { hdr := { version := 10, length := 24, exportTime := 0, seq := 1, dom := 7, setID := 256, setLen := 8 },
           body := .data 256 [[.num 6, .bytes [104, 105]]] } := by decide +kernel
+
+/-- the hypotheses of `e2e_send_data` are met by a concrete session state: an exporter that has
+    registered template 256 = `ies0`, and a one-record data set for it -/
+def st0 : ExpState := { seq := 4294967295, dom := 7, templates := [(256, { fieldCount := 2, minLen := 2 })] }
+def d0 : SetDesc := { ty := .data, setId := 256, recs := [(256, [(ies0[0]!, .num 6), (ies0[1]!, .bytes [104, 105])])] }
+example : (match d0.build true with
+    | some s => (match st0.sendBuilt 0 s with | (st', .ok _ _) => st'.seq == 0 | _ => false)
+    | none => false) = true ∧
+    (∀ r ∈ d0.recs, r.2.map (·.1) = ies0) ∧ 0 < minRecordLen ies0 :=
+  ⟨by decide +kernel, by decide +kernel, by decide +kernel⟩
 
 end Ipfix.C01
